@@ -512,9 +512,48 @@ class ExprMixin:
             except KeyError:
                 return z3.Or([self.eq(x, VStrConst(kk) if isinstance(kk, str) else VInt(kk), path) for kk in xs.items] or [z3.BoolVal(False)])
             return z3.BoolVal(k in xs.items)
+        if isinstance(xs, (VHeapMap, VAttrib)):
+            return self.map_has(xs, x, path)
         if isinstance(xs, VSet):
             return z3.IsMember(self.coerce(x, xs.elem_kind).t, xs.t)
         raise OutOfReach(f'`in` on {xs.kind}')
+
+    # ------------------------------------------------------------------ read-only maps (heap dict fields, element attributes)
+    def map_key(self, key):
+        """(is a string, string term): None and other non-string keys are never present in a str-keyed map"""
+        D = self.ctx.sorts.Data
+        if isinstance(key, VStr):
+            return z3.BoolVal(True), key.t
+        if isinstance(key, VNone):
+            return z3.BoolVal(False), z3.StringVal('')
+        if isinstance(key, VData):
+            return D.is_DStr(key.t), D.s(key.t)
+        raise OutOfReach(f'map key of kind {key.kind}')
+
+    def map_fns(self, m, path):
+        S = self.ctx.sorts
+        if isinstance(m, VAttrib):
+            has = self.uf('attr_has', [S.Elem, z3.StringSort()], z3.BoolSort())
+            val = self.uf('attr_val', [S.Elem, z3.StringSort()], z3.StringSort())
+            return (lambda k: has(m.elem.t, k)), (lambda k: VStr(val(m.elem.t, k)))
+        has = self.ctx.heap_fn(path, m.owner.cls, m.field, 'has')
+        val = self.ctx.heap_fn(path, m.owner.cls, m.field, 'val')
+        return (lambda k: has(m.owner.t, k)), (lambda k: self.ctx.val_of(m.val_kind, val(m.owner.t, k)))
+
+    def map_has(self, m, key, path):
+        is_s, k = self.map_key(key)
+        has, _ = self.map_fns(m, path)
+        return z3.And(is_s, has(k))
+
+    def map_get(self, m, key, path, ln=None, default=None):
+        """m[key] (default None: KeyError obligation) or m.get(key[, default])"""
+        is_s, k = self.map_key(key)
+        has, val = self.map_fns(m, path)
+        present = z3.And(is_s, has(k))
+        if default is None:
+            self.ctx.oblige(path, 'defined', 'key present (KeyError)', present, ln)
+            return val(k)
+        return self.merge(present, val(k), default)
 
     # ------------------------------------------------------------------ expressions
     def ev(self, node, path):
@@ -612,6 +651,8 @@ class ExprMixin:
             self.ctx.oblige(path, 'defined', f'attribute .{name} on None', base.t != S.null(base.cls), ln)
             if fk[0] == 'listfield':
                 return VHeapList(base, name, fk[1])
+            if fk[0] == 'mapfield':
+                return VHeapMap(base, name, fk[1], fk[2])
             fn = self.ctx.heap_fn(path, base.cls, name)
             return self.ctx.val_of(fk, fn(base.t))
         if isinstance(base, VNode):
@@ -685,12 +726,15 @@ class ExprMixin:
             return VLib(base.dotted + '.' + base.name, name)
         if isinstance(base, VStr):
             return VBoundStr(base, name)
-        if isinstance(base, (VList, VSeq, VHeapList, VDict, VSet)):
+        if isinstance(base, (VList, VSeq, VHeapList, VDict, VSet, VHeapMap, VAttrib)):
             return VBoundColl(base, name, node.value if node is not None else None)
         if isinstance(base, VElem):
             E = self.ctx.sorts.Elem
             if name == 'tag':
                 return VStr(E.tag(base.t))
+            if name == 'attrib':
+                self.ctx.assumptions.add('attributes of a document element: uninterpreted has / value functions of (element, key)')
+                return VAttrib(base)
             if name == 'text':
                 # Element.text is None when the element has no text
                 self.ctx.assumptions.add('xml.etree Element modelled as a value (tag, text or None, ordered children); attributes, tail text '
@@ -1018,6 +1062,8 @@ class ExprMixin:
                 return self.at(base, n + i, path)
             self.ctx.oblige(path, 'defined', 'index in range (IndexError)', z3.And(0 <= i, i < n), ln)
             return self.at(base, i, path)
+        if isinstance(base, (VHeapMap, VAttrib)):
+            return self.map_get(base, idx, path, ln)
         if isinstance(base, VPy):
             # item of an opaque mapping (e.g. a dict read from JSON): an uninterpreted function of the mapping and the key;
             # a missing key raises KeyError in the real code (loud), which this model does not distinguish
